@@ -11,10 +11,10 @@ theorem Flags.or_none_iff (a b : Flags) : a.or b = Flags.none ↔ a = Flags.none
   cases a; cases b
   simp only [Flags.or, Flags.none, Flags.mk.injEq, Bool.or_eq_false_iff]
   constructor
-  · rintro ⟨⟨h1, h1'⟩, ⟨h2, h2'⟩, ⟨h3, h3'⟩, ⟨h4, h4'⟩, ⟨h5, h5'⟩⟩
-    exact ⟨⟨h1, h2, h3, h4, h5⟩, ⟨h1', h2', h3', h4', h5'⟩⟩
-  · rintro ⟨⟨h1, h2, h3, h4, h5⟩, ⟨h1', h2', h3', h4', h5'⟩⟩
-    exact ⟨⟨h1, h1'⟩, ⟨h2, h2'⟩, ⟨h3, h3'⟩, ⟨h4, h4'⟩, ⟨h5, h5'⟩⟩
+  · rintro ⟨⟨h1, h1'⟩, ⟨h2, h2'⟩, ⟨h3, h3'⟩, ⟨h4, h4'⟩⟩
+    exact ⟨⟨h1, h2, h3, h4⟩, ⟨h1', h2', h3', h4'⟩⟩
+  · rintro ⟨⟨h1, h2, h3, h4⟩, ⟨h1', h2', h3', h4'⟩⟩
+    exact ⟨⟨h1, h1'⟩, ⟨h2, h2'⟩, ⟨h3, h3'⟩, ⟨h4, h4'⟩⟩
 
 @[simp] theorem Flags.none_or (a : Flags) : Flags.none.or a = a := by
   cases a; simp [Flags.or, Flags.none]
